@@ -59,11 +59,12 @@ func c02Records() []refdns.RR {
 }
 
 type c02Case struct {
-	kind string
-	desc string
-	m    *refdns.Msg
-	inC  bool   // encode input with compression pointers
-	pre  []byte // if set: bytes fed to the decoder (and normally rejected) before the message under test
+	kind      string
+	desc      string
+	m         *refdns.Msg
+	inC       bool   // encode input with compression pointers
+	pre       []byte // if set: bytes fed to the decoder (and normally rejected) before the message under test
+	mayReject bool   // the decoder may legitimately reject this message; only if it accepts must the content survive
 }
 
 // checkOne runs the oracle on one abstract message; returns an observation string.
@@ -76,6 +77,11 @@ func c02Check(rep *report.R, c c02Case, replay any) {
 	in := c.m.Encode(c.inC)
 	want := c.m.Canon()
 	pm, err := vUnpack(in)
+	if err != nil && c.mayReject {
+		rep.Eval("reject:" + c.desc)
+		rep.Count("rejected_optional_"+c.kind, 1)
+		return
+	}
 	if err != nil {
 		rep.Eval("reject")
 		rep.Violate("C02:"+c.kind+":unpack-rejects-valid", fmt.Sprintf("%s: proxy rejects a well-formed message (%v): %x", c.desc, err, in), replay)
@@ -275,6 +281,48 @@ func c02Enumerate(names []refdns.Name, recs []refdns.RR, maxRec, slots int, emit
 				m := &refdns.Msg{ID: 9, Bits: refdns.BitQR, Q: []refdns.Q{{Name: refdns.N("a"), Type: 1, Class: 1}},
 					An: []refdns.RR{bigrr, refdns.NameRR(refdns.TypeCNAME, n, 1, n), refdns.NameRR(refdns.TypeCNAME, n, 1, n)}}
 				emit(c02Case{kind: "far", desc: fmt.Sprintf("name %s first seen beyond offset 0x4000, inputCompressed=%v", n, inC), m: m, inC: inC})
+			}
+		}
+	}
+	// names straddling offset 0x4000: only the labels that start below the boundary may become pointer targets
+	{
+		N := refdns.N
+		full := N("aaaa", "bbbb", "cccc")
+		for d := 0; d <= 16; d++ {
+			for _, inC := range []bool{false, true} {
+				m := &refdns.Msg{ID: 9, Bits: refdns.BitQR, Q: []refdns.Q{{Name: N("q"), Type: 1, Class: 1}}}
+				// header 12 + question 7 + first record (owner "q" compressed or not) ... pad so that the straddling owner starts at 0x4000-d
+				pad := refdns.Unknown(N("q"), 65280, 1, nil)
+				probe := &refdns.Msg{ID: 9, Bits: refdns.BitQR, Q: m.Q, An: []refdns.RR{pad}}
+				base := len(probe.Encode(inC))
+				want := 0x4000 - d
+				if want-base < 0 {
+					continue
+				}
+				pad = refdns.Unknown(N("q"), 65280, 1, make([]byte, want-base))
+				m.An = []refdns.RR{pad, refdns.A(full, 1, 1, 2, 3, 4), refdns.A(N("bbbb", "cccc"), 1, 5, 6, 7, 8), refdns.NameRR(refdns.TypeCNAME, N("cccc"), 1, N("x", "bbbb", "cccc"))}
+				emit(c02Case{kind: "straddle", desc: fmt.Sprintf("owner aaaa.bbbb.cccc starts %d octets below offset 0x4000, inputCompressed=%v", d, inC), m: m, inC: inC})
+			}
+		}
+	}
+	// records of interpreted types with empty RDATA (dynamic update style, classes IN/NONE/ANY): whatever the decoder accepts must survive
+	{
+		N := refdns.N
+		for _, typ := range []uint16{refdns.TypeA, refdns.TypeAAAA, refdns.TypeCNAME, refdns.TypeNS, refdns.TypePTR, refdns.TypeMX, refdns.TypeSOA, refdns.TypeSRV, refdns.TypeTXT, refdns.TypeOPT} {
+			for _, class := range []uint16{1, 254, 255} {
+				for _, sec := range []int{0, 1, 2} {
+					r := refdns.RR{Owner: N("upd", "a"), Type: typ, Class: class, TTL: 0}
+					m := &refdns.Msg{ID: 5, Bits: 5 << 11, Q: []refdns.Q{{Name: N("a"), Type: refdns.TypeSOA, Class: 1}}}
+					switch sec {
+					case 0:
+						m.An = []refdns.RR{r}
+					case 1:
+						m.Ns = []refdns.RR{r, refdns.A(N("a"), 1, 1, 1, 1, 1)}
+					default:
+						m.Ar = []refdns.RR{r}
+					}
+					emit(c02Case{kind: "empty-rdata", desc: fmt.Sprintf("type %d class %d with RDLENGTH 0 in section %d", typ, class, sec), m: m, mayReject: true})
+				}
 			}
 		}
 	}
